@@ -33,9 +33,12 @@ type C20Case struct {
 	Delays  string      `json:"delays"` // VERIF_WATCH_DELAYS for the watcher process
 }
 
-const c20Rule = "a package of 1-3 model files importing a sibling package, watched by `yardl generate --watch` (built with the verif tag) x a generated schedule of 2-7 saves (valid change, YAML syntax error, rule violation, file deleted / created, touch without change, the imported package's manifest broken by an import that cannot be fetched / repaired, a valid change of the imported package's model; the last state valid, the last change a save - in the watched package or in the imported one -, a creation or a deletion) separated by gaps of 0-120 ms x per-regeneration delays of 0/60/350 ms injected at the hook inside generateImpl, so that an early regeneration can be made to outlast later ones. oracle: after the last save and quiescence (no output change for 1.2 s) the watcher is still running and the output tree equals that of a one-shot `yardl generate` of the final contents. non-trivial = a regeneration was delayed while later saves arrived (or regenerations overlapped in time per the hook log), or an invalid intermediate state occurred; distinct = hash of the schedule"
+const c20Rule = "a package of 1-3 model files importing a sibling package, watched by `yardl generate --watch` (built with the verif tag) x a generated schedule of 2-7 saves (valid change, YAML syntax error, rule violation, file deleted / created, touch without change, the imported package's manifest broken by an import that cannot be fetched / repaired, the python section removed from / restored in the watched package's own manifest while the watcher is idle, a valid change of the imported package's model; the last state valid, the last change a save - in the watched package or in the imported one -, a creation or a deletion) separated by gaps of 0-120 ms x per-regeneration delays of 0/60/350 ms injected at the hook inside generateImpl, so that an early regeneration can be made to outlast later ones. oracle: after the last save and quiescence (no output change for 1.2 s) the watcher is still running and the output tree equals that of a one-shot `yardl generate` of the final contents (when the final manifest has no python section: the python files are exactly those on disk when the section was removed, which a one-shot run would leave alone). non-trivial = a regeneration was delayed while later saves arrived (or regenerations overlapped in time per the hook log), or an invalid intermediate state occurred; distinct = hash of the schedule"
 
 const c20Manifest = "namespace: Mdl\nimports:\n  - ../base\npython:\n  outputDir: ../out/py\njson:\n  outputDir: ../out/json\ncpp:\n  sourcesOutputDir: ../out/cpp\n  generateHDF5: false\n  generateCMakeLists: false\n"
+
+// the same manifest without its python section (the target is switched off by removing it)
+const c20ManifestNoPython = "namespace: Mdl\nimports:\n  - ../base\njson:\n  outputDir: ../out/json\ncpp:\n  sourcesOutputDir: ../out/cpp\n  generateHDF5: false\n  generateCMakeLists: false\n"
 
 const c20BaseManifest = "namespace: Base\n"
 const c20BaseManifestBroken = "namespace: Base\nimports:\n  - http://example.com/more-models\n" // cannot be fetched: unsupported scheme
@@ -60,9 +63,19 @@ func genC20(t *rapid.T) C20Case {
 	aInvalid := false // a.yml currently holds an invalid model
 	n := rapid.IntRange(2, 7).Draw(t, "edits")
 	hasB := true
+	hasPy := true
 	for i := 0; i < n; i++ {
 		last := i == n-1
 		kinds := []string{"valid", "valid", "valid", "syntax-error", "rule-violation", "delete-b", "create-b", "touch", "base-break", "base-fix"}
+		if !last && !baseBroken && !aInvalid {
+			// the watched package's own manifest: the python section removed / put back (done while the
+			// package is valid and the watcher idle, see runWatch)
+			if hasPy {
+				kinds = append([]string{"manifest-drop-python", "manifest-drop-python"}, kinds...)
+			} else {
+				kinds = append([]string{"manifest-restore-python"}, kinds...)
+			}
+		}
 		if i == n-2 {
 			// the imported package is whole again before the last save
 			kinds = kinds[:len(kinds)-2]
@@ -107,6 +120,12 @@ func genC20(t *rapid.T) C20Case {
 			hasB = true
 		case "touch":
 			e.Content = "" // resolved at run time: rewrite current content
+		case "manifest-drop-python":
+			e.File, e.Content = "_package.yml", c20ManifestNoPython
+			hasPy = false
+		case "manifest-restore-python":
+			e.File, e.Content = "_package.yml", c20Manifest
+			hasPy = true
 		case "base-model":
 			// a valid change in the imported package: its types are generated along with the watched package's
 			e.File, e.Content = "../base/base.yml", fmt.Sprintf("BaseRec: !record\n  fields:\n    v: int\n    w%d: float\n", i)
@@ -124,7 +143,7 @@ func genC20(t *rapid.T) C20Case {
 		}
 		c.Edits = append(c.Edits, e)
 	}
-	_ = hasB
+	_, _ = hasB, hasPy
 	var ds []string
 	for k := 1; k <= n+2; k++ {
 		d := rapid.SampledFrom([]int{0, 0, 60, 350}).Draw(t, "delay")
@@ -174,8 +193,50 @@ func runWatch(c C20Case) (string, bool, bool) {
 		current[n] = s
 	}
 	invalid := false
+	// quiesce waits until the output has not changed for 1.2 s and no regeneration is in flight
+	// (hook log balanced), at most 20 s
+	quiesce := func() {
+		var last sut.Snapshot
+		stableSince := time.Now()
+		deadline := time.Now().Add(20 * time.Second)
+		for time.Now().Before(deadline) {
+			time.Sleep(150 * time.Millisecond)
+			s := sut.Snap(outDir, true)
+			logTxt, _ := os.ReadFile(logPath)
+			balanced := strings.Count(string(logTxt), "start ") == strings.Count(string(logTxt), "end ")
+			if last != nil && len(last.Diff(s)) == 0 && balanced {
+				if time.Since(stableSince) > 1200*time.Millisecond {
+					return
+				}
+			} else {
+				stableSince = time.Now()
+			}
+			last = s
+		}
+	}
+	// frozenPy: the python output as it was when the python section had been removed from the
+	// manifest and the watcher had settled; a one-shot generate of any later state of the package
+	// does not touch it, so neither may the watcher
+	var frozenPy map[string]string
 	for _, e := range c.Edits {
 		p := filepath.Join(pkg, e.File)
+		if strings.HasPrefix(e.Kind, "manifest-") {
+			quiesce()
+			os.WriteFile(p, []byte(e.Content), 0o644)
+			current[e.File] = e.Content
+			quiesce()
+			frozenPy = nil
+			if e.Kind == "manifest-drop-python" {
+				frozenPy = map[string]string{}
+				for f, txt := range sut.ReadTree(outDir) {
+					if strings.HasPrefix(f, "py/") {
+						frozenPy[f] = txt
+					}
+				}
+			}
+			time.Sleep(time.Duration(e.GapMs) * time.Millisecond)
+			continue
+		}
 		switch {
 		case e.Delete:
 			os.Remove(p)
@@ -192,23 +253,7 @@ func runWatch(c C20Case) (string, bool, bool) {
 		time.Sleep(time.Duration(e.GapMs) * time.Millisecond)
 	}
 	// quiescence: output unchanged for 1.2 s and no regeneration in flight (hook log balanced)
-	var last sut.Snapshot
-	stableSince := time.Now()
-	deadline = time.Now().Add(20 * time.Second)
-	for time.Now().Before(deadline) {
-		time.Sleep(150 * time.Millisecond)
-		s := sut.Snap(outDir, true)
-		logTxt, _ := os.ReadFile(logPath)
-		balanced := strings.Count(string(logTxt), "start ") == strings.Count(string(logTxt), "end ")
-		if last != nil && len(last.Diff(s)) == 0 && balanced {
-			if time.Since(stableSince) > 1200*time.Millisecond {
-				break
-			}
-		} else {
-			stableSince = time.Now()
-		}
-		last = s
-	}
+	quiesce()
 	select {
 	case err := <-exited:
 		out, _ := os.ReadFile(filepath.Join(root, "watch.out"))
@@ -239,6 +284,20 @@ func runWatch(c C20Case) (string, bool, bool) {
 	want := sut.ReadTree(filepath.Join(ref, "out"))
 	got := sut.ReadTree(outDir)
 	var diffs []string
+	if frozenPy != nil {
+		// the final manifest has no python section: the one-shot run writes no python files, and the
+		// python files on disk must be the ones that were there when the section was removed
+		for f, g := range got {
+			if strings.HasPrefix(f, "py/") {
+				if w, ok := frozenPy[f]; !ok {
+					diffs = append(diffs, "written after the python section was removed: "+f)
+				} else if w != g {
+					diffs = append(diffs, "rewritten after the python section was removed: "+f+": "+firstDiff(w, g))
+				}
+				delete(got, f)
+			}
+		}
+	}
 	for p, w := range want {
 		if g, ok := got[p]; !ok {
 			diffs = append(diffs, "missing "+p)
